@@ -30,6 +30,22 @@ NEEDS = {
  'C11-b': 'get_node_id bound check off by one (> len instead of >= len) plus stamp taken from the foreign node: a node lying directly behind the storage of a full arena yields a bogus Some(id)',
  'C12-b': 'remove_subtree single-pass rewrite reads instead of takes next_sibling while climbing: removed inner nodes with children and a following sibling keep next_sibling',
  'C13-b': 'reserve(k) subtracts the number of removed slots: capacity() < count()+k when removed nodes are still in storage',
+ 'C03-c': 'p.append(a) where a is already the FIRST child of p and p has >= 2 children: hand-written same-parent fast path forgets to advance first_child',
+ 'C04-c': 'remove(x) where x has exactly one child and x is the only child of its parent: single-child fast path updates first_child but (else if) not last_child',
+ 'C05-c': 'live.append(removed_id): fast path of the unchecked append for isolated nodes skips the removed check (a removed node looks isolated); release links the freed slot, debug panics after changing the arena',
+ 'C06-c': 'remove of an isolated root (no parent, no siblings) that still has children: fast path returns before free_node, the id never becomes removed',
+ 'C07-c': 'free-list link stored as Option<NonZeroUsize> of a zero-based index: freeing slot 0 while another slot is already free encodes as None, slot 0 and everything freed after it are lost',
+ 'C09-c': 'predecessors() with a visit budget of count()-1: when the predecessor chain covers every slot of the arena the last element (the root) is dropped',
+ 'C12-c': 'insert guards ask the id (id.is_removed(arena)) instead of the slot: an id obtained from the arena for a removed node (get_node_id on a removed slot, negative stamp) passes the guard in either position',
+ 'C17-c': 'cfg(feature = "std") pretty-printer path renders the payload into a String and re-splits it with lines(): payloads containing \\r\\n (or ending in newlines) print differently with and without std',
+ 'C01-d': 'insert_after/insert_before unlink the node from its siblings but keep its parent link; the redundant detach inside insert_with_neighbors then wipes the OLD parent\'s first/last child: node moved away from a parent that keeps other children, or within a parent with >= 3 children',
+ 'C02-d': 'ancestor test refactored into a helper; checked_insert_before passes the two ids in swapped order: a grandparent is accepted as new sibling of its grandchild (parent cycle)',
+ 'C04-d': 'two sites: connect_neighbors sets parent on the two nodes it links, transplant drops rewrite_parents: remove(x) with >= 3 children leaves the inner children pointing at the removed node',
+ 'C08-d': 'hand-written Clone with clone_from that forgets last_free_slot: dst.clone_from(&src) with a pending free slot in dst, then any removal overwrites the payload cell of a live node',
+ 'C10-d': 'insert_before fast path for moving a same-parent child to the front: with >= 4 children the node after the gap gets previous_sibling = self; forward iteration fine, backward iteration skips a node (a structural fault: visible to C01/C03 at N = 5, not to the iterator checks on well-formed forests)',
+ 'C11-d': 'hand-written Node::clone_from does not copy the stamp: after arena.clone_from(&snapshot) positions and ids disagree with links (get_node_id_at None for a linked node / stale generation)',
+ 'C13-d': 'hand-written PartialEq compares self.last_free_slot with other.first_free_slot: a == a.clone() is false as soon as two slots are on the free list',
+ 'C14-d': 'IndentWriter overrides write_char with a fast path that does not clear is_first_line: a line break that reaches the writer as a single char makes the continuation line start with a second connector',
  'C14-b': 'write_str fast path for fragments arriving mid-line tests ends_with(newline) instead of contains: a later chunk with an interior newline loses guides and alignment',
 }
 rows = {}
